@@ -7,8 +7,22 @@ import re
 import sys
 
 
+def fields_at(loc):
+    """The struct fields named on the source line of an access (what the race is about)."""
+    m = re.match(r"\s*(\S+\.go):(\d+)", loc)
+    if not m:
+        return ""
+    try:
+        line = open(m.group(1), errors="replace").read().splitlines()[int(m.group(2)) - 1]
+    except (OSError, IndexError):
+        return ""
+    line = line.split("//")[0]
+    toks = sorted(set(re.findall(r"\.([A-Za-z_][A-Za-z0-9_]*)", line)) - {"Lock", "Unlock", "RLock", "RUnlock", "mu"})
+    return ",".join(toks)
+
+
 def lib_frame(lines):
-    for ln in lines:
+    for i, ln in enumerate(lines):
         m = re.match(r"\s+(github\.com/scigolib/hdf5[^\s(]*(?:\([^)]*\))?[^\s(]*)\(", ln)
         if m:
             f = m.group(1)
@@ -16,8 +30,9 @@ def lib_frame(lines):
                 continue
             f = f.replace("github.com/scigolib/hdf5/internal/", "").replace("github.com/scigolib/hdf5.", "hdf5.")
             f = f.replace("github.com/scigolib/hdf5/", "")
-            return f
-    return "?"
+            loc = lines[i + 1] if i + 1 < len(lines) else ""
+            return f, fields_at(loc)
+    return "?", ""
 
 
 def parse(prefix):
@@ -33,10 +48,11 @@ def parse(prefix):
                 if not m:
                     continue
                 body = p.split("\n\n")[0].splitlines()[1:]
-                accs.append((m.group(2).lower().split()[0], lib_frame(body)))
+                fr, fld = lib_frame(body)
+                accs.append((m.group(2).lower().split()[0], fr, fld))
             if len(accs) >= 2:
-                a, b = sorted(accs[:2], key=lambda x: x[1])
-                pairs.append({"a": a[1], "akind": a[0], "b": b[1], "bkind": b[0]})
+                a, b = sorted(accs[:2], key=lambda x: (x[1], x[2]))
+                pairs.append({"a": a[1], "akind": a[0], "afields": a[2], "b": b[1], "bkind": b[0], "bfields": b[2]})
     return pairs
 
 
